@@ -21,6 +21,14 @@ import implutil  # noqa: E402
 def main():
     prop, inp, outp = sys.argv[1:4]
     repo = os.environ.get("VERIF_REPO", "/repo")
+    cov = None
+    if os.environ.get("VERIF_COV_OUT"):
+        try:
+            import coverage
+            cov = coverage.Coverage(data_file=None, include=[os.path.join(os.path.realpath(repo), "bibtexparser", "*")])
+            cov.start()
+        except Exception:
+            cov = None
     import bibtexparser
     assert os.path.realpath(bibtexparser.__file__).startswith(os.path.realpath(repo) + os.sep), \
         "implementation imported from %s, expected under %s" % (bibtexparser.__file__, repo)
@@ -58,6 +66,17 @@ def main():
                 rec["crash"] = "harness error: " + traceback.format_exc()[-800:]
             g.write(json.dumps(rec) + "\n")
             g.flush()
+    if cov is not None:
+        cov.stop()
+        res = {}
+        for f in cov.get_data().measured_files():
+            try:
+                _, stmts, _, missing, _ = cov.analysis2(f)
+                res[os.path.relpath(f, os.path.realpath(repo))] = [len(stmts), len(missing)]
+            except Exception:
+                pass
+        with open(os.environ["VERIF_COV_OUT"], "w") as h:
+            json.dump(res, h)
 
 
 if __name__ == "__main__":
